@@ -178,11 +178,27 @@ class Run:
         self.errors.append(f"{rule}: {subject}: {why}")
 
     def check(self, rule: str, subject: str, ok: bool, symbol: str, construct, message: str, **kw) -> bool:
+        pend, self.pending_imprecise = getattr(self, "pending_imprecise", []), []
         if ok:
             self.proved(rule, subject)
+        elif pend:
+            # the abstract runs this verdict rests on left the modelled subset: not a refutation, an unknown
+            self.undecided(rule, symbol, f"{subject}: " + "; ".join(pend[:2]))
         else:
             self.refuted(rule, symbol, construct, message, **kw)
         return ok
+
+    def watch(self, interp) -> None:
+        """Collect the imprecision notes of every top-level abstract run of `interp` until the next check(): a check that fails while
+        notes are pending is reported as undecided (exit 2), never as a violation."""
+        self.pending_imprecise = []
+
+        def sink(notes, run=self):
+            for n in notes:
+                if n not in run.pending_imprecise:
+                    run.pending_imprecise.append(n)
+
+        interp.imprecision_sink = sink
 
     def floor(self, what: str, got: int, minimum: int) -> None:
         """Instance floor: fewer instances than confirmed by hand => exit 2."""
